@@ -65,6 +65,39 @@ fn prog_line(src: &str, prove: bool, cap: usize) -> String {
     }
 }
 
+fn prog2_line(rest: &str, cap: usize) -> String {
+    let parts: Vec<&str> = rest.split("||").collect();
+    if parts.len() != 2 {
+        return "bad-request".into();
+    }
+    let (a, b) = (parts[0].trim(), parts[1].trim());
+    let res = catch_unwind(AssertUnwindSafe(|| {
+        let mut c = Composer::initialized();
+        let r = run_prog(&mut c, a);
+        let mut cb = Composer::initialized();
+        let rb = run_prog(&mut cb, b);
+        if r.bad.is_some() || rb.bad.is_some() {
+            return "bad-op".to_string();
+        }
+        let sum = summary(&c, &r);
+        let ca = ProgCircuit { src: a.to_string() };
+        let cbc = ProgCircuit { src: b.to_string() };
+        let (prover, verifier) = match Compiler::compile_with_circuit(pp(cap), b"verif", &ca) {
+            Ok(x) => x,
+            Err(e) => return format!("{} compile={}", sum, err_name(&e)),
+        };
+        let mut rng = ScriptRng::seeded(7);
+        match prover.prove(&mut rng, &cbc) {
+            Ok((proof, pis)) => match verifier.verify(&proof, &pis) {
+                Ok(()) => format!("{} prove=ok verify=ok", sum),
+                Err(e) => format!("{} prove=ok verify={}", sum, err_name(&e)),
+            },
+            Err(e) => format!("{} prove={}", sum, err_name(&e)),
+        }
+    }));
+    res.unwrap_or_else(|_| "panic".to_string())
+}
+
 fn answer(line: &str, cap: usize) -> String {
     let line = line.trim();
     let (cmd, rest) = match line.split_once(' ') {
@@ -74,6 +107,7 @@ fn answer(line: &str, cap: usize) -> String {
     match cmd {
         "prog" => prog_line(rest, true, cap),
         "shape" => prog_line(rest, false, cap),
+        "prog2" => prog2_line(rest, cap),
         "dump" => {
             let r = catch_unwind(AssertUnwindSafe(|| {
                 let mut c = Composer::initialized();
